@@ -350,4 +350,174 @@ example : ∃ e, parse "<A><B>1</B>x</A>".toList = .error e :=
 example : ∃ e, parse "<A><B>1</B></A>x".toList = .error e :=
   C08_partial_text_after_end _ ⟨['/', 'A'], none, some ['x'], none, none, 5⟩ (by decide) (by rfl) (Or.inr (by rfl))
 
+/-! ### the same rejections at string level, after any valid body -/
+
+section strings
+open Ofx.C02
+
+theorem scanBody_excl (r : Str) : (scanBody r).1 = none ∨ (scanBody r).2.1 = none := by
+  unfold scanBody
+  split
+  · exact Or.inr rfl
+  · exact Or.inl rfl
+
+theorem scanClose_fst (tg r : Str) : (scanClose tg r).1 = none ∨ (scanClose tg r).1 = some tg := by
+  unfold scanClose
+  split
+  · exact Or.inr rfl
+  · exact Or.inl rfl
+
+/-- the first token raises: so does the run -/
+theorem run_first_error (tok : Str) (m : Match) (st : St) (e : Err) (hne : tok ≠ [])
+    (hm : matchHere tok = some m) (hs : step m st = .error e) : run tok st = .error e := by
+  cases tok with
+  | nil => exact absurd rfl hne
+  | cons c cs => simp only [run, toks, toksGo, hm, feedToks, hs]
+
+/-- a start tag met when the root is complete raises `ParseError`, whatever follows it -/
+theorem start_after_root (t' r : Str) (root : Tree) (ht : tagOk t' = true) :
+    run (startTag t' ++ r) ⟨[], some root⟩ = .error .parse := by
+  obtain ⟨htne, htc⟩ := tagChars ht
+  refine run_first_error _ _ _ _ (by simp [startTag]) (matchHere_tag t' r htne htc) ?_
+  unfold step
+  simp only
+  split
+  · rfl
+  · have hex := scanBody_excl r
+    have hassert : (truthy (scanBody r).1 && truthy (groom (scanBody r).2.1)) = false := by
+      rcases hex with h | h
+      · simp [h, truthy]
+      · simp [h, groom, truthy]
+    simp only [hassert, Bool.false_eq_true, if_false]
+    rw [feedMatch_name t' _ _ _ ht (scanClose_fst t' _)]
+    simp [startElem, St.start, bind, Except.bind]
+
+/-- **second root, at string level**: any strict rendering followed by whitespace and one more start tag — whatever
+    comes after it — is rejected with a `ParseError` -/
+theorem C08_second_root_rejected (t : Tree) (s w t' r : Str) (h : Renders true t s) (hw : ws w = true)
+    (ht : tagOk t' = true) (hsafe : cdSafe (s ++ (w ++ (startTag t' ++ r))) = true) :
+    parse (s ++ (w ++ (startTag t' ++ r))) = .error .parse := by
+  have hsn := startsName_startTag t' r ht
+  have hrun := renders_ok h w (startTag t' ++ r) St.init hw
+    ⟨Or.inr (Or.inl hsn), fun tg _ => startsName_noEnd tg hsn⟩ hsafe (Or.inr rfl)
+  rw [parse_eq, hrun]
+  have : St.init.emit t = ⟨[], some t⟩ := rfl
+  rw [this, start_after_root t' r t ht]
+
+/-- **stray end tag after the root, at string level**: a strict rendering of an aggregate followed by whitespace and one
+    more end tag is rejected -/
+theorem C08_stray_end_rejected (tg : Str) (cs : List Tree) (s w t' r : Str) (h : Renders true (Tree.agg tg cs) s)
+    (hw : ws w = true) (ht : tagOk t' = true) (hsafe : cdSafe (s ++ (w ++ (endTag t' ++ r))) = true) :
+    ∃ e, parse (s ++ (w ++ (endTag t' ++ r))) = .error e := by
+  have hse := startsEnd_endTag t' r ht
+  have hrun := renders_ok h w (endTag t' ++ r) St.init hw
+    ⟨Or.inr (Or.inr hse), fun tg' h' => by simp [Tree.agg, leafTag] at h'⟩ hsafe (Or.inr rfl)
+  obtain ⟨htne, htc⟩ := tagChars ht
+  have htc' : ∀ c ∈ '/' :: t', isTagChar c = true := by
+    intro c hc
+    rcases List.mem_cons.mp hc with rfl | h
+    · exact tagChar_slash
+    · exact htc c h
+  have e3 : endTag t' ++ r = startTag ('/' :: t') ++ r := by simp [endTag, startTag]
+  have hstep : ∀ m : Match, m.tag = '/' :: t' → ∃ e, step m (St.init.emit (Tree.agg tg cs)) = .error e := by
+    intro m hm
+    unfold step feedMatch
+    simp only [hm, isEndTag, List.isEmpty_cons, Bool.false_eq_true, if_false, if_true]
+    repeat' split
+    all_goals exact ⟨_, rfl⟩
+  have hmt := matchHere_tag ('/' :: t') r (by simp) htc'
+  generalize hM : (Match.mk ('/' :: t') (scanBody r).1 (scanBody r).2.1 (scanClose ('/' :: t') (scanBody r).2.2).1 (scanTail (scanClose ('/' :: t') (scanBody r).2.2).2) (2 + ('/' :: t').length + (r.length - (scanClose ('/' :: t') (scanBody r).2.2).2.length) + optLen (scanTail (scanClose ('/' :: t') (scanBody r).2.2).2))) = M at hmt
+  have hMt : M.tag = '/' :: t' := by rw [← hM]
+  obtain ⟨e, he⟩ := hstep M hMt
+  refine ⟨e, ?_⟩
+  rw [parse_eq, hrun, e3,
+    run_first_error _ _ _ e (by simp [startTag]) hmt he]
+
+theorem mem_lstrip (l : Str) (c : Char) (hc : c ∈ l) (hs : isSpace c = false) : c ∈ lstrip l := by
+  induction l with
+  | nil => cases hc
+  | cons a as ih =>
+    unfold lstrip
+    by_cases ha : isSpace a = true
+    · simp only [ha, if_true]
+      rcases List.mem_cons.mp hc with rfl | h
+      · rw [hs] at ha; cases ha
+      · exact ih h
+    · simp only [ha]; exact hc
+
+/-- `x.strip()` is non-empty as soon as `x` has a non-whitespace character -/
+theorem strip_ne_nil (x : Str) (c : Char) (hc : c ∈ x) (hs : isSpace c = false) : strip x ≠ [] := by
+  unfold strip rstrip
+  have h1 : c ∈ lstrip x := mem_lstrip x c hc hs
+  have h2 : c ∈ lstrip (lstrip x).reverse := mem_lstrip _ c (by simpa using h1) hs
+  intro e
+  have : lstrip (lstrip x).reverse = [] := by simpa using e
+  rw [this] at h2; cases h2
+
+theorem groom_nonblank (x : Str) (c : Char) (hc : c ∈ x) (hs : isSpace c = false) : truthy (groom (optStr x)) = true := by
+  have hne := strip_ne_nil x c hc hs
+  cases x with
+  | nil => cases hc
+  | cons a as =>
+    simp only [optStr, groom]
+    cases h : strip (a :: as) with
+    | nil => exact absurd h hne
+    | cons b bs => rfl
+
+/-- **text after the root's end tag, at string level**: a strict rendering of an aggregate followed by text that is not
+    all whitespace is rejected with a `ParseError` -/
+theorem C08_text_after_root_rejected (tg : Str) (cs : List Tree) (s x : Str) (c : Char)
+    (h : Renders true (Tree.agg tg cs) s) (hx : ∀ a ∈ x, notLt a = true) (hc : c ∈ x) (hs : isSpace c = false)
+    (hsafe : cdSafe (s ++ x) = true) : parse (s ++ x) = .error .parse := by
+  cases h with
+  | agg _ w0 _ body ht h0 hl hself =>
+    obtain ⟨htne, htc⟩ := tagChars ht
+    obtain ⟨hshape, hlastOk⟩ := rendersList_facts hl
+    -- the end tag of the root, with the offending text, as one token
+    have htc' : ∀ a ∈ '/' :: tg, isTagChar a = true := by
+      intro a ha
+      rcases List.mem_cons.mp ha with rfl | h
+      · exact tagChar_slash
+      · exact htc a h
+    have hxne : x ≠ [] := by intro e; subst e; cases hc
+    have hm3 := matchHere_open ('/' :: tg) x [] (by simp) htc' hx (stops_nil _)
+      (by simpa using dropPrefix_notLt x [] hxne hx) (by simp [endTag, dropPrefix])
+    have hend : ∀ st : St, run (endTag tg ++ x) st = .error .parse := by
+      intro st
+      have e3 : endTag tg ++ x = startTag ('/' :: tg) ++ (x ++ []) := by simp [endTag, startTag]
+      rw [e3]
+      refine run_first_error _ _ st _ (by simp [startTag]) hm3 ?_
+      unfold step feedMatch
+      have h1' : truthy (groom none) = false := rfl
+      have h2' : truthy (none : Option Str) = false := rfl
+      simp [h1', h2', isEndTag, groom_nonblank x c hc hs]
+    rcases hshape with ⟨rfl, rfl⟩ | ⟨-, hbody⟩
+    · -- `<tg> w0 </tg> x`: one match whose tail is `x`
+      have hm := matchHere_closed tg w0 x [] htne htc (ws_notLt h0) hx (stops_nil _)
+      have e : (startTag tg ++ (w0 ++ ([] ++ endTag tg))) ++ x = startTag tg ++ (w0 ++ (endTag tg ++ (x ++ []))) := by simp
+      rw [parse_eq, e]
+      rw [run_first_error _ _ St.init .parse (by simp [startTag]) hm
+        (by unfold step; simp [groom_nonblank x c hc hs])]
+    · have hR1 : StartsName (body ++ (endTag tg ++ x)) := startsName_append _ hbody
+      have hm1 := matchHere_open tg w0 (body ++ (endTag tg ++ x)) htne htc (ws_notLt h0)
+        (after_stops (Or.inr (Or.inl hR1)))
+        (dropPrefix_ws_or _ w0 _ ⟨_, rfl⟩ h0 (after_nocdata (Or.inr (Or.inl hR1))))
+        (startsName_noEnd tg hR1)
+      have e : (startTag tg ++ (w0 ++ (body ++ endTag tg))) ++ x = startTag tg ++ (w0 ++ (body ++ (endTag tg ++ x))) := by simp
+      have hsafe2 : cdSafe (body ++ (endTag tg ++ x)) = true := by
+        apply cdSafe_append_right (startTag tg ++ w0); simpa using hsafe
+      have hlast : ∀ c, cs.getLast? = some c → ∀ tg', leafTag c = some tg' →
+          dropPrefix (endTag tg') (endTag tg ++ x) = none := by
+        intro c' hcl tg' htg'
+        apply dropPrefix_endTag_ne tg' tg _ (hlastOk c' hcl tg' htg') ht
+        intro e; subst e; exact hself rfl c' hcl htg'
+      rw [parse_eq, e,
+        run_tok' _ (startTag tg ++ w0) (body ++ (endTag tg ++ x)) _ St.init (St.init.push tg) (by simp) (by simp [startTag])
+          hm1 rfl (step_open tg _ _ St.init ht (groom_ws w0 h0) (Or.inr rfl)),
+        rendersList_ok hl (endTag tg ++ x) (St.init.push tg) (by simp [St.push])
+          (Or.inr (Or.inr (startsEnd_endTag tg _ ht))) hlast hsafe2,
+        hend]
+
+end strings
+
 end Ofx.C08
